@@ -13,9 +13,10 @@ Engine E1: the complete product of a stated finite alphabet
 
 is executed on the real implementation.  Channels are built with
 init_from_channel_matrix, precoders / receive filters are arbitrary (not
-aligned) members of the same family.  For the plain channel the same product is
-run through IA solver objects (set_precoders / set_receive_filters; F+P None,
-F+unequal P, full_F; W or W_H; several solver classes).
+aligned) members of the same family.  The same product is run through IA solver
+objects (set_precoders / set_receive_filters; F+P None, F+unequal P, full_F; W or
+W_H; several solver classes) bound to the plain channel and to the ExtInt channel
+(where the only power the solver API can mean is the library default pe = 1).
 
 Oracle (never a covariance helper of the library): explicit nested Python loops
 over scalars built from the RAW channel matrix, the path-loss matrix, the
@@ -71,8 +72,7 @@ PES = [None, 0.5, 4.0]                 # None = argument omitted (library defaul
 NTE_QUICK = [1, [1, 1]]
 NTE_THOROUGH = [1, [1, 1], 2, [2, 1]]
 SOLVERS_QUICK = ["IASolverBaseClass", "MaxSinrIASolver"]
-SOLVERS_THOROUGH = ["IASolverBaseClass", "ClosedFormIASolver", "MaxSinrIASolver",
-                    "AlternatingMinIASolver", "MMSEIASolver", "MinLeakageIASolver"]
+SOLVERS_THOROUGH = ["IASolverBaseClass", "ClosedFormIASolver", "MaxSinrIASolver", "MMSEIASolver"]
 FMODES = ["F_P1", "F_Pvec", "fullF"]
 WMODES = ["W", "W_H"]
 
@@ -87,7 +87,7 @@ def _offs():
 def all_cases(tier):
     thorough = tier == "thorough"
     layouts = LAYOUTS_THOROUGH if thorough else LAYOUTS_QUICK
-    members = range(6) if thorough else range(2)
+    members = range(4) if thorough else range(2)
     ntes = NTE_THOROUGH if thorough else NTE_QUICK
     pes = PES + ([0.0] if thorough else [])
     solvers = SOLVERS_THOROUGH if thorough else SOLVERS_QUICK
@@ -427,8 +427,7 @@ def compare_cov(chk, view, rel, case, k, got, ref, scale_ref, psd=True):
     """matrix relations: == explicit sum, Hermitian, PSD; scale_ref = magnitude of the operands
     the library adds / subtracts to obtain the matrix"""
     got = np.asarray(got)
-    cond = (stream_class(case["Ns"][k]) if "Bkl" in rel else "K=%d" % len(case["Nr"]),
-            noise_class(case))
+    cond = (stream_class(case["Ns"][k]),) if "Bkl" in rel else ()
     if got.shape != ref.shape:
         chk.fail((view, rel, "shape"), case, observed=got.shape, expected=ref.shape)
         return
@@ -858,6 +857,10 @@ def main(chk: Check):
             run_case(case, c)
 
     run_shards(chk, worker)
+    decs = [k[2] for k in chk.outcomes.get("normalized_error_decade", ())]
+    if decs:
+        # largest observed |lib-ref| / (2^-52 * kappa * scale), as a power of ten (threshold C_TOL)
+        chk.extra["max_normalized_error_decade"] = max(decs)
     it = all_cases(chk.tier)
     for case in itertools.islice(it, 0, 60, 11):
         chk.sample(case)
